@@ -236,8 +236,7 @@ class MultiKeyLookup:
         if obj in self._objects:
             return
         with self._lock:
-            self._objects.add(obj)
-            self._mk_indices(obj)
+            self._add_new_object(obj)
 
     def add_object_no_lock(self, obj: Any):
         """Add object to table without using the lock.
@@ -246,8 +245,7 @@ class MultiKeyLookup:
         """
         if obj in self._objects:
             return
-        self._objects.add(obj)
-        self._mk_indices(obj)
+        self._add_new_object(obj)
 
     def add_objects(self, objects: list[Any]):
         """Add objects to table.
@@ -265,18 +263,53 @@ class MultiKeyLookup:
         for obj in objects:
             if obj in self._objects:
                 continue
-            self._objects.add(obj)
+            self._add_new_object(obj)
+
+    def _add_new_object(self, obj: Any):
+        """Add obj to objects and indices. If an index rejects obj, the table is left unchanged."""
+        self._objects.add(obj)
+        try:
             self._mk_indices(obj)
+        except Exception:
+            self._objects.discard(obj)
+            raise
 
     def _mk_indices(self, obj: Any):
+        """Add obj to all indices.
+
+        If an index rejects obj (e.g. KeyError of a unique index), all entries that were made so far are removed again
+        before the exception is re-raised; obj is then in no index and has no entry in _object_ids.
+        """
         all_keys = []  # for this object
-        for index_definition in self._idx_defs.values():
-            try:
-                tmp_keys = [_ObjRef(index_definition, k) for k in index_definition.mk_keys(obj)]
-                all_keys.extend(tmp_keys)
-            except (TypeError, AttributeError):  # noqa: PERF203
-                pass
+        try:
+            for index_definition in self._idx_defs.values():
+                try:
+                    tmp_keys = [_ObjRef(index_definition, k) for k in index_definition.mk_keys(obj)]
+                    all_keys.extend(tmp_keys)
+                except (TypeError, AttributeError):  # noqa: PERF203
+                    pass
+        except Exception:
+            for obj_ref in all_keys:
+                obj_ref.index_dict.rm_key(obj_ref.key, obj)
+            raise
         self._object_ids[id(obj)].extend(all_keys)
+
+    def _update_indices(self, obj: Any):
+        """Remove obj from all indices and add it again with its current key values.
+
+        If an index rejects the current key values of obj, the previous index entries of obj are restored
+        (appended to the lists of their keys) before the exception is re-raised: the table keeps the state of the
+        last successful indexing of obj.
+        """
+        old_refs = self._object_ids.get(id(obj), [])
+        self._rm_indices(obj)
+        try:
+            self._mk_indices(obj)
+        except Exception:
+            for obj_ref in old_refs:
+                obj_ref.index_dict.setdefault(obj_ref.key, []).append(obj)
+            self._object_ids[id(obj)] = old_refs
+            raise
 
     def _rm_indices(self, obj: Any):
         obj_refs = self._object_ids.get(id(obj), [])
@@ -333,16 +366,14 @@ class MultiKeyLookup:
             msg = f'object {obj} not known'
             raise ValueError(msg)
         with self._lock:
-            self._rm_indices(obj)
-            self._mk_indices(obj)
+            self._update_indices(obj)
 
     def update_object_no_lock(self, obj: Any):
         """Update indices according to current values in obj without using lock."""
         if obj not in self._objects:
             msg = f'object {obj} not known'
             raise ValueError(msg)
-        self._rm_indices(obj)
-        self._mk_indices(obj)
+        self._update_indices(obj)
 
     def update_objects(self, objs: list[Any]):
         """Update indices according to current values in objs."""
@@ -356,8 +387,7 @@ class MultiKeyLookup:
                 msg = f'object {obj} not known'
                 raise ValueError(msg)
             with self._lock:
-                self._rm_indices(obj)
-                self._mk_indices(obj)
+                self._update_indices(obj)
 
     def clear(self):
         """Remove all objects from table."""
